@@ -51,7 +51,7 @@ set_random(Seed) :-
     (   nonvar(Seed) ->
         (  Seed = seed(S) ->
         (  var(S) -> instantiation_error(set_random/1)
-        ;  integer(S) -> '$set_seed'(S)
+        ;  integer(S) -> S1 is S mod 18446744073709551616, '$set_seed'(S1)
         ;  type_error(integer, S, set_random/1)
         )
         )
